@@ -204,7 +204,8 @@ int main(int argc, char ** argv)
         }
     }
     rf = resf ? fopen(resf, "w") : NULL;
-    if (__sanitizer_set_death_callback) __sanitizer_set_death_callback(on_death);
+    if (rf) setvbuf(rf, NULL, _IOLBF, 0);
+    if (__sanitizer_set_death_callback) { __sanitizer_set_death_callback(on_death); signal(SIGABRT, on_signal); /* assert(): ASan does not intercept abort() */ }
     else { signal(SIGSEGV, on_signal); signal(SIGABRT, on_signal); signal(SIGFPE, on_signal); signal(SIGBUS, on_signal); }
     for (k = 0; k < npre; k++)
     {
